@@ -118,11 +118,21 @@ pub fn scenarios(quick: bool) -> Vec<Scenario> {
     add("anim-2same-last", "anim-12x10-3kf", vec![2, 2], None);
     add("chain-2diff", "layers-chain-two-kf", vec![0, 1], None);
     add("chain-3mixed", "layers-chain-two-kf", vec![1, 0, 1], None);
+    // a VarDCT frame that fetches its LF from an LF frame, and a frame that fetches patches from a reference frame:
+    // further users of the handle protocol (run_with_image from inside another frame's render)
+    add("lfframe-2same", "vardct-lfframe-40x24", vec![0, 0], None);
+    add("patches-2same", "rgba-24x20-patches", vec![0, 0], None);
+    if !quick {
+        add("lfframe-3same", "vardct-lfframe-40x24", vec![0, 0, 0], None);
+        add("patches-3same", "rgba-24x20-patches", vec![0, 0, 0], None);
+    }
     for k in if quick { vec![0usize, 3, 7] } else { (0..14).collect() } {
         add(&format!("anim-2same-fault{k}"), "anim-12x10-3kf", vec![1, 1], Some(k));
         add(&format!("chain-2diff-fault{k}"), "layers-chain-two-kf", vec![1, 0], Some(k));
         if !quick || k == 3 {
             add(&format!("ref+blend-3same-fault{k}"), "ref-then-blend-alpha16", vec![0, 0, 0], Some(k));
+            add(&format!("lfframe-2same-fault{k}"), "vardct-lfframe-40x24", vec![0, 0], Some(k));
+            add(&format!("patches-2same-fault{k}"), "rgba-24x20-patches", vec![0, 0], Some(k));
         }
     }
     v
